@@ -103,11 +103,24 @@ Print Assumptions refused_or_blocked_taskrunner.
 
 (* ---- Pool ---- *)
 
-(* pool_exclusive.  Counting: created = idle + held <= limit at every step; expired idle
-   resources popped by Get are uncounted ([pdrain] decrements [created] per destroyed one). *)
+(* While a create() is in progress (the pool lock is held across the user callback) no other
+   Get or Put gets into the critical section and no waiter resumes: the limit check and the
+   count update of a creating Get are one atomic section. *)
+Theorem pool_lock_excludes : forall s t th o,
+  nth_error (pthreads s) t = Some th -> pcur th = Some o -> plocked s = true ->
+  ppcof th = PEnter \/ ppcof th = PWaiting -> pstep s t = None.
+Proof. exact pool_lock_excludes_l. Qed.
+Print Assumptions pool_lock_excludes.
+
+(* pool_exclusive.  Counting: created = idle + held <= limit at every step (a resource being
+   created counts as held by the Get that creates it: the count is taken before create() is
+   called and create() runs under the pool lock); expired idle resources popped by Get are
+   uncounted ([pdrain] decrements [created] per destroyed one); at most one create() is in
+   progress at any time, exactly when the lock is held across the callback. *)
 Theorem pool_counts : forall n ma scripts sched,
   let s := pexec n ma scripts sched in
-  pcreated s = length (pidle s) + pheldcount s /\ pcreated s <= n.
+  pcreated s = length (pidle s) + pheldcount s /\ pcreated s <= n /\
+  pcreating s = (if plocked s then 1 else 0).
 Proof. exact pool_counts_l. Qed.
 Print Assumptions pool_counts.
 
@@ -147,7 +160,7 @@ Print Assumptions pool_destroys_only_expired.
 
 (* refused_or_blocked: Get at the limit with nothing idle waits (and creates nothing) *)
 Theorem blocked_pool : forall s t th,
-  nth_error (pthreads s) t = Some th -> pcur th = Some PGet -> ppcof th = PIdle ->
+  nth_error (pthreads s) t = Some th -> pcur th = Some PGet -> ppcof th = PEnter -> plocked s = false ->
   pidle s = [] -> pcreated s = plimit s ->
   exists s', pstep s t = Some s' /\ pcreated s' = pcreated s /\
              nth_error (pthreads s') t = Some (mkPT PWaiting (pscript th) (popi th) (pheld th) (pres th)).
@@ -187,6 +200,14 @@ Proof. vm_compute. reflexivity. Qed.
 
 (* Pool limit 1, max-age 100: resource 0 is put back, expires, is destroyed and replaced by 1 *)
 Example ex_pool :
-  let s := pexec 1 100 [[PGet; PPut; PAdv 500; PGet]] [0;0;0;0] in
+  let s := pexec 1 100 [[PGet; PPut; PAdv 500; PGet]] [0;0;0; 0;0; 0; 0;0;0] in
   (map pres (pthreads s), pcreated s, pdestroyed s, map pheld (pthreads s)) = ([[0;-1;-1;1]]%Z, 1, [0], [[1]]).
+Proof. vm_compute. reflexivity. Qed.
+
+(* Pool limit 2: thread 0 is inside create() holding the lock; threads 1 and 2 have invoked
+   Get and cannot enter although capacity is left *)
+Example ex_pool_create_excludes :
+  let s := pexec 2 0 [[PGet]; [PGet]; [PGet]] [0;0; 1; 2; 1; 2] in
+  (map ppcof (pthreads s), plocked s, pcreated s, pcreating s) =
+  ([PCreating 0; PEnter; PEnter], true, 1, 1).
 Proof. vm_compute. reflexivity. Qed.
